@@ -30,9 +30,45 @@ fn record(e: Event) {
     }
 }
 
+/// While set, allocations requested with an alignment below 16 get *exactly*
+/// that alignment and not more (the system allocator aligns everything to 16,
+/// which hides a structure that was allocated with too small an alignment).
+static MIN_ALIGN: AtomicBool = AtomicBool::new(false);
+
+/// Scope guard: exact alignments while it lives.
+pub struct ExactAlign(bool);
+
+pub fn exact_align() -> ExactAlign {
+    ExactAlign(MIN_ALIGN.swap(true, Ordering::SeqCst))
+}
+
+impl Drop for ExactAlign {
+    fn drop(&mut self) {
+        MIN_ALIGN.store(self.0, Ordering::SeqCst);
+    }
+}
+
+/// user = raw + 16 + align with raw 16-aligned: aligned to `align`, not to 2 * align,
+/// and recognisable at dealloc time (never 16-aligned).
+unsafe fn exact_alloc(l: Layout) -> *mut u8 {
+    let raw = System.alloc(Layout::from_size_align_unchecked(l.size() + 32, 16));
+    if raw.is_null() {
+        return raw;
+    }
+    raw.add(16 + l.align())
+}
+
+fn is_exact(p: *mut u8, l: Layout) -> bool {
+    l.align() < 16 && (p as usize) % 16 != 0
+}
+
+unsafe fn exact_dealloc(p: *mut u8, l: Layout) {
+    System.dealloc(p.sub(16 + l.align()), Layout::from_size_align_unchecked(l.size() + 32, 16));
+}
+
 unsafe impl GlobalAlloc for Tracking {
     unsafe fn alloc(&self, l: Layout) -> *mut u8 {
-        let p = System.alloc(l);
+        let p = if l.align() < 16 && MIN_ALIGN.load(Ordering::SeqCst) { exact_alloc(l) } else { System.alloc(l) };
         if ARMED.load(Ordering::SeqCst) {
             record(Event { alloc: true, ptr: p as usize, size: l.size(), align: l.align() });
         }
@@ -42,13 +78,31 @@ unsafe impl GlobalAlloc for Tracking {
         if ARMED.load(Ordering::SeqCst) {
             record(Event { alloc: false, ptr: p as usize, size: l.size(), align: l.align() });
         }
-        System.dealloc(p, l)
+        if is_exact(p, l) {
+            exact_dealloc(p, l)
+        } else {
+            System.dealloc(p, l)
+        }
     }
     unsafe fn realloc(&self, p: *mut u8, l: Layout, new_size: usize) -> *mut u8 {
         if ARMED.load(Ordering::SeqCst) {
             record(Event { alloc: false, ptr: p as usize, size: l.size(), align: l.align() });
         }
-        let q = System.realloc(p, l, new_size);
+        let q = if is_exact(p, l) || (l.align() < 16 && MIN_ALIGN.load(Ordering::SeqCst)) {
+            let nl = Layout::from_size_align_unchecked(new_size, l.align());
+            let q = if MIN_ALIGN.load(Ordering::SeqCst) { exact_alloc(nl) } else { System.alloc(nl) };
+            if !q.is_null() {
+                std::ptr::copy_nonoverlapping(p, q, l.size().min(new_size));
+                if is_exact(p, l) {
+                    exact_dealloc(p, l)
+                } else {
+                    System.dealloc(p, l)
+                }
+            }
+            q
+        } else {
+            System.realloc(p, l, new_size)
+        };
         if ARMED.load(Ordering::SeqCst) {
             record(Event { alloc: true, ptr: q as usize, size: new_size, align: l.align() });
         }
